@@ -35,23 +35,23 @@ CHECKS = {
     ),
     "C04": (
         "model_checking",
-        "(1) Function::substitute on a function family x all 7^4 replacement maps over four keys (constant, linear, linear mentioning another replaced id, quadratic, zero, identity, absent) vs exact simultaneous composition. "
-        "(2) Instance::substitute on an instance family x first map x optional second map (chains) x states, under every iteration order of the dependency map (hook H1): every function compared as polynomial, dependency map compared, Solution compared with the original instance evaluated at the completed state; log_encode->substitute->evaluate on all bit patterns. "
+        "(1) Function::substitute on a function family x all 8^4 replacement maps over four keys (constant, linear, linear mentioning another replaced id, quadratic, zero, identity, an unnormalised linear listing an id twice, absent) vs exact simultaneous composition. "
+        "(2) Instance::substitute on an instance family (replaced variables unbounded, or bounded so that the replacement values fall outside) x first map x optional second map (chains) x states, under every iteration order of the dependency map (hook H1): every function compared as polynomial, dependency map compared, Solution compared with the original instance evaluated at the completed state; log_encode->substitute->evaluate on all bit patterns. "
         "(3) Explicit enumeration of ALL dependency graphs on n<=3 (quick) / n<=4 (thorough, 16.7M graphs) dependents, each summing any subset of {dependents incl. itself, a valued variable, a value-less variable}, x all n! iteration orders, through the real Instance::evaluate; oracle = Kahn topological evaluation: exact values when acyclic and grounded, Err otherwise; a watchdog turns a hang into a violation.",
         "Trusted: Poly.subst, Kahn oracle, hook H1 (sorts the bucket by key and applies the harness permutation; identity when unset). Instance-level replacements mention only remaining variables, as the property states.",
         "exhaustive enumeration of dependency graphs x iteration orders (schedules) and of replacement maps on the real code vs reference composition",
     ),
     "C05": (
         "model_checking",
-        "Two product families of instances run through the real Instance::evaluate on every state of a per-instance alphabet and compared with an independent reference evaluator: (a) all (active, removed) constraint lists up to 2+2 whose values land on every side of the 1e-6 tolerance (-1,-2e-6,-5e-7,0,5e-7,1e-6,2e-6,1; both equalities; absent/unset functions) x objectives x variable configurations; "
+        "Two product families of instances run through the real Instance::evaluate on every state of a per-instance alphabet and compared with an independent reference evaluator: (a) all (active, removed) constraint lists up to 2+2 whose values land on every side of the 1e-6 tolerance (-1,-2e-6,-5e-7,0,5e-7,1e-6,2e-6,1; both equalities; absent/unset functions; removal reasons incl. the empty string) x objectives x variable configurations; "
         "(b) all 15 kind x bound shapes for a used and for an irrelevant variable x pre-fixed variable x dependency none/single/chain/quadratic, states on the grid, at bound edges +-5e-8 (accepted) and +-2e-7 (rejected), each variable missing, an extra undefined id. Oracle: objective, each constraint exactly once with value/equality/metadata/removal reason, both flags by the tolerance rule, reported state = given + fixed + dependent + nearest-to-zero fill, Err exactly for out-of-bound or missing used variables. Every dependency-map order is enumerated.",
         "Flags are asserted against the rule applied to the SDK-reported values, which are themselves compared with exact values. Values exactly at bound+-1e-7 are outside the alphabet (skipped_too_close_to_threshold must be 0).",
         "bounded exhaustive enumeration of (instance, state) on the real code vs reference evaluator",
     ),
     "C06": (
         "model_checking",
-        "Every Samples message with k sample ids (every ordered set partition of the ids into entries x every assignment of one of 4 pool states to each entry; the pool contains a state omitting the irrelevant variable, two different states with equal objective and constraint values, and a duplicate; k<=3 quick / k<=4 thorough in full (thorough also k=5 in full on every 8th instance), k=5,6 over a 2-state pool, k=7,8 structured; plus every add_sample insertion order for k=3) over an instance family (irrelevant-variable bound shapes, pre-fixed variable whose value one pool state contradicts, dependency none/single/chain, active+removed constraints, constraint values exactly on the +-1e-6 tolerance, objectives in quirky representations: split constants, explicit zeros, degree-0 polynomials), through the real evaluate_samples and SampleSet::get; each extracted Solution compared field by field (and as a whole message) with Instance::evaluate of that sample's state; objective/feasibility/constraint tables must be keyed by exactly the submitted ids.",
-        "Differential oracle: Instance::evaluate, itself verified against the reference evaluator by C05. All pool states are valid for evaluate.",
+        "Every Samples message with k sample ids (every ordered set partition of the ids into entries x every assignment of one of 4 pool states to each entry; the pool contains a state omitting the irrelevant variable, two different states with equal objective and constraint values, and a duplicate; k<=3 quick / k<=4 thorough in full (thorough also k=5 in full on every 8th instance), k=5,6 over a 2-state pool, k=7,8 structured; plus every add_sample insertion order for k=3) over an instance family (irrelevant-variable bound shapes, pre-fixed variable whose value one pool state contradicts, dependency none/single/chain, active+removed constraints (removal reasons incl. the empty string), constraint values exactly on the +-1e-6 tolerance, objectives in quirky representations: split constants, explicit zeros, degree-0 polynomials), through the real evaluate_samples and SampleSet::get; each extracted Solution compared field by field (and as a whole message) with Instance::evaluate of that sample's state; objective/feasibility/constraint tables must be keyed by exactly the submitted ids; samples whose state omits a variable the problem uses (alone, or beside a complete sample in either order) must make evaluate_samples fail exactly when Instance::evaluate fails on them.",
+        "Differential oracle: Instance::evaluate, itself verified against the reference evaluator by C05. All pool states are in-bound; a state that evaluate rejects lacks a used variable.",
         "bounded exhaustive enumeration of Samples messages (all groupings) on the real code, differential vs the single-state path",
     ),
     "C09": (
@@ -62,13 +62,13 @@ CHECKS = {
     ),
     "C10": (
         "model_checking",
-        "Parametric instances whose objective and constraints range over the full representation alphabet (decision ids {1,2}, parameter ids {10,11}; declared sets {10,11} and {10,11,12} so a declared parameter may be unused or occur only in a removed constraint) x parameter assignments {complete, complete+unrelated extra, with a zero value, each single declared parameter missing, empty, unrelated id only} through with_parameters. Oracle: exact partial evaluation of objective and active constraints; decision variables, sense, removed constraints, hints, dependencies unchanged; supplied values recorded; Err iff a declared parameter is missing; evaluate(x) == parametric functions at (x,p). Instance->ParametricInstance->with_parameters({}) round trip compared as problems.",
+        "Parametric instances whose objective and constraints range over the full representation alphabet (decision ids {1,2}, parameter ids {10,11}; declared sets {10,11} and {10,11,12} so a declared parameter may be unused or occur only in a removed constraint; parameter 11 carries no name or other metadata, parameter 10 all of it) x parameter assignments {complete, complete+unrelated extra, with a zero value, each single declared parameter missing, empty, unrelated id only} through with_parameters. Oracle: exact partial evaluation of objective and active constraints; decision variables, sense, removed constraints, hints, dependencies unchanged; supplied values recorded; Err iff a declared parameter is missing; evaluate(x) == parametric functions at (x,p). Instance->ParametricInstance->with_parameters({}) round trip compared as problems.",
         "Trusted: Poly.partial. Previous `parameters` of an Instance are dropped by the conversion by documented design and are not compared.",
         "bounded exhaustive enumeration of (parametric instance, assignment) on the real code vs exact partial evaluation",
     ),
     "C11": (
         "model_checking",
-        "Every objective message of the C01 representation alphabet over 3 binary variables (~10^5 messages: repeated ids inside monomials, x^2, cancelling terms, split constants, explicit zeros, lower/upper triangle) and deterministic all-monomial families for n=4..12, degree<=4: the PUBO dictionary and the QUBO matrix+offset are evaluated on ALL 2^n assignments in exact arithmetic against the objective; keys canonical (i<=j, strictly increasing sets), no stored zero coefficient, no duplicate key. Every refusal condition on every base: active constraint, maximise, each used variable made integer / continuous, >2 distinct variables (QUBO); a removed constraint alone, a defined non-binary variable (each kind) that the objective does not use, and such a variable mentioned only by a removed constraint must not refuse.",
+        "Every objective message of the C01 representation alphabet over 3 binary variables (~10^5 messages: repeated ids inside monomials, x^2, cancelling terms, split constants, explicit zeros, lower/upper triangle) and deterministic all-monomial families for n=4..12, degree<=4: the PUBO dictionary and the QUBO matrix+offset are evaluated on ALL 2^n assignments in exact arithmetic against the objective; keys canonical (i<=j, strictly increasing sets), no stored zero coefficient, no duplicate key. Every refusal condition on every base: active constraint, maximise, each used variable made integer / continuous / semi-* / unspecified or left undefined, >2 distinct variables (QUBO); a removed constraint alone, a defined non-binary variable (each kind) that the objective does not use, and such a variable mentioned only by a removed constraint must not refuse.",
         "Refusal is not asserted for terms whose coefficient is exactly zero (property leaves it open). Sense unspecified is outside the alphabet.",
         "bounded exhaustive enumeration of objectives x all binary assignments on the real code vs exact evaluation",
     ),
@@ -80,19 +80,19 @@ CHECKS = {
     ),
     "C13": (
         "model_checking",
-        "Every inequality f(x)<=0 with f = up to 2 (quick) / 3 (thorough) distinct monomials of degree<=2 + constant, coefficients {+-1,+-2,3,+-1/2,1/3,-2/3,3/4}, constants {-3,-1,-1/2,0,1/2,2}, over 1..3 integer/binary variables, every assignment of 5 boxes to the variables, Linear/Quadratic/Polynomial and unnormalised representations (a term listed twice in both id orders; the constant split over two degree-0 monomials), another constraint present, a second conversion in the same instance on a sub-grid, two variable-list layouts; convert_inequality_to_equality_with_integer_slack x max_integer_range {1,3,100} and add_integer_slack_to_inequality x slack_upper_bound {1,2,5}. Oracle: brute force over EVERY lattice point of the box and EVERY slack value in the new variable's bounds: feasible set in x unchanged; slack integer, fresh id, bound [0,S], same constraint id, b reported = slack coefficient; moved-to-removed => constraint unchanged and satisfied everywhere; InfeasibleDetected => no clearly feasible lattice point; for linear f the determined outcomes are asserted in the converse direction too; rejections (unknown id, equality field = 0 / unspecified / outside the enumeration, continuous or semi-continuous variable, range above limit) leave the instance unchanged.",
+        "Every inequality f(x)<=0 with f = up to 2 (quick) / 3 (thorough) distinct monomials of degree<=2 + constant, coefficients {+-1,+-2,3,+-1/2,1/3,-2/3,3/4}, constants {-3,-1,-1/2,0,1/2,2}, over 1..3 integer/binary variables, every assignment of 5 boxes to the variables, Linear/Quadratic/Polynomial and unnormalised representations (a term listed twice in both id orders; the constant split over two degree-0 monomials), another constraint present, a second conversion in the same instance on a sub-grid, two variable-list layouts; convert_inequality_to_equality_with_integer_slack x max_integer_range {1,3,100} and add_integer_slack_to_inequality x slack_upper_bound {1,2,5}. Oracle: brute force over EVERY lattice point of the box and EVERY slack value in the new variable's bounds: feasible set in x unchanged; slack integer, fresh id, bound [0,S], same constraint id, b reported = slack coefficient; moved-to-removed => constraint unchanged and satisfied everywhere; InfeasibleDetected => no clearly feasible lattice point; for linear f the determined outcomes are asserted in the converse direction too; rejections (unknown constraint id, a variable of f left undefined, equality field = 0 / unspecified / outside the enumeration, continuous or semi-continuous variable, range above limit) leave the instance unchanged.",
         "Feasibility at lattice points uses the 1e-6 rule on values that are multiples of 1/12 (far from the tolerance). add_integer_slack's exact-zero threshold with non-dyadic coefficients is not asserted at the boundary, nor is b == slack coefficient when b is rounding noise (<= 1e-12) of a non-dyadic unnormalised message (both counted as boundary_cases_not_asserted). slack_upper_bound=0 and unbounded variables are outside the alphabet.",
         "bounded exhaustive enumeration of inequalities x boxes with brute-force lattice/slack oracle on the real code",
     ),
     "C14": (
         "model_checking",
-        "Explicit-state breadth-first search with stateright over the real Instance: from each of 12 initial instances (3 constraint-function sets with 3-4 constraints, 0/1/2/all initially removed; thorough adds a 5-constraint set: 2.0e5 states, 5.9e6 transitions) every action relax(id, reason in {a, empty string}, params in {none,{k:v}}) / relax(id, a reason with leading and trailing whitespace) / restore(id) for every constraint id and the unknown id 99. The instance message is the whole state (dedup key = message bytes + reference model), so every history of any length is covered, not only length <= 8. Every transition is compared with a two-set reference model (op on an id not in the expected list must fail and leave the instance equal to its clone); every reachable state is checked: multiset of (id, function, equality, metadata) over active+removed unchanged, ids partitioned, recorded reasons/parameters, and on all 27 grid states per-constraint values and feasible equal the initial instance's while feasible_relaxed follows the currently active constraints.",
+        "Explicit-state breadth-first search with stateright over the real Instance: from each of 12 initial instances (3 constraint-function sets with 3-4 constraints, 0/1/2/all initially removed; thorough adds a 5-constraint set: 2.0e5 states, 5.9e6 transitions) every action relax(id, reason in {a, empty string}, params in {none,{k:v}}) / relax(id, a reason with leading and trailing whitespace) / restore(id) for every constraint id and the unknown id 99. The instance message is the whole state (dedup key = message bytes + reference model), so every history of any length is covered, not only length <= 8. Every transition is compared with a two-set reference model (op on an id not in the expected list must fail and leave the instance equal to its clone); every reachable state is checked: multiset of (id, function, equality, metadata) over active+removed unchanged, ids partitioned, recorded reasons/parameters, and on all 27 grid states per-constraint values and feasible equal the initial instance's while feasible_relaxed follows the currently active constraints; three incomplete states (each variable omitted) are accepted or rejected exactly as by the initial instance.",
         "stateright 0.31 BFS; violations are collected through a side channel so exploration continues and every signature is reported; replay re-executes the recorded history without the explorer.",
         "explicit-state model checking (stateright BFS) of the real code with a reference model in lock-step",
     ),
     "C15": (
         "model_checking",
-        "(a) as_minimization_problem on every objective of the medium representation family x both senses, once and twice: sense, objective == +-f as exact polynomials, every other field untouched, idempotent, identical ranking of all pairs of grid states. (b) every sample set with k<=6 (quick) / k<=7 (thorough; k=8 over two objective values) samples where each sample independently takes one of 3 objective values (so ties occur) and one of 3 feasibility classes (infeasible / feasible for remaining constraints only / feasible for all), produced by the real evaluate_samples, x both senses x {current fields, legacy fields decoded by prost} x {values grouped by state as evaluate_samples writes them, regrouped by value as another writer may}, for k<=4 also with objective values -inf / +inf and with the relaxed constraint carrying the empty reason (listed so, or after a real relax_constraint(id, \"\")): the returned id is feasible in the requested sense and unbeaten under the set's sense, Err exactly when no sample is feasible; feasible-id sets and the best Solution getters agree.",
+        "(a) as_minimization_problem on every objective of the medium representation family (plus objectives with 2^-60 coefficients, which exact negation keeps) x both senses, once and twice: sense, objective == +-f as exact polynomials, every other field untouched, idempotent, identical ranking of all pairs of grid states. (b) every sample set with k<=6 (quick) / k<=7 (thorough; k=8 over two objective values) samples where each sample independently takes one of 3 objective values (so ties occur) and one of 3 feasibility classes (infeasible / feasible for remaining constraints only / feasible for all), produced by the real evaluate_samples, x both senses x {current fields, legacy fields decoded by prost} x {values grouped by state as evaluate_samples writes them, regrouped by value as another writer may}, for k<=4 also with objective values -inf / +inf and with the relaxed constraint carrying the empty reason (listed so, or after a real relax_constraint(id, \"\")): the returned id is feasible in the requested sense and unbeaten under the set's sense, Err exactly when no sample is feasible; feasible-id sets and the best Solution getters agree.",
         "Legacy = tag 4 holds remaining-constraint feasibility, tag 6 all-constraint feasibility, tag 7 absent. Unspecified sense and unset-oneof objectives are outside the alphabet.",
         "bounded exhaustive enumeration of (objective, sense) and of sample-set feasibility/objective patterns on the real code",
     ),
@@ -122,13 +122,13 @@ CHECKS = {
     ),
     "C19": (
         "model_checking",
-        "Abstract QP models for EACH of the 120 problem-type codes (objective L/D/C/Q x variables C/B/M/I/G x constraints N/B/L/D/C/Q) x sizes up to n=5, m=4 x a deterministic sweep (210 quick / 840 thorough per code and size) that visits every value of every content dimension: Q0 diagonal / off-diagonal patterns, default b0 with non-defaults incl. an explicit zero, q0, per-constraint Qi / bi, constraint sides finite / exactly at the infinity value / beyond it / equal, variable bounds likewise, variable types, names, infinity value 1e20 or 50, sense; 4 layouts (comment lines with ! # %, blank lines, trailing text after values, lower-case keywords). Rendered by the harness's own QPLIB writer, loaded with qplib::load_file. Expected problem from the model: objective 1/2 x'Q0x + b0'x + q0 assembled from the lower triangle (diagonal entry v -> v/2 x_i^2), one <=0 constraint per finite side with the right signs, unique constraint ids, variable kinds/bounds/names. Fault files on 6 representative codes x 2 layouts: each type-code character invalid, too short, invalid sense, every count non-numeric / negative / fractional, every number and entry value / index unparsable, and truncation after EVERY line => Err whose message carries the line number of the fault.",
+        "Abstract QP models for EACH of the 120 problem-type codes (objective L/D/C/Q x variables C/B/M/I/G x constraints N/B/L/D/C/Q) x sizes up to n=5, m=4 (incl. m=0 under every constraint kind) x a deterministic sweep (210 quick / 840 thorough per code and size) that visits every value of every content dimension: Q0 diagonal / off-diagonal patterns, default b0 with non-defaults incl. an explicit zero, q0, per-constraint Qi / bi, constraint sides finite / exactly at the infinity value / beyond it / equal, variable bounds likewise, variable types, names, infinity value 1e20 or 50, sense; 4 layouts (comment lines with ! # %, blank lines, trailing text after values, lower-case keywords). Rendered by the harness's own QPLIB writer, loaded with qplib::load_file. Expected problem from the model: objective 1/2 x'Q0x + b0'x + q0 assembled from the lower triangle (diagonal entry v -> v/2 x_i^2), one <=0 constraint per finite side with the right signs, unique constraint ids, variable kinds/bounds/names. Fault files on 6 representative codes x 2 layouts: each type-code character invalid, too short, invalid sense, every count non-numeric / negative / fractional, every number and entry value / index unparsable, and truncation after EVERY line => Err whose message carries the line number of the fault.",
         "Format assumption: the two trailing name sections are always written. Outside the alphabet: out-of-range indices, upper-triangle or repeated entries.",
         "bounded exhaustive enumeration of type codes x content sweep rendered by an independent writer; fault enumeration incl. every truncation point",
     ),
     "C20": (
         "model_checking",
-        "Explicit exploration of add-operation histories: every sequence of length 0..3 (quick) / 0..4 (thorough, 70k archives) over the 16-action alphabet (4 layer kinds x {empty message whose bytes coincide across kinds so digests collide, non-trivial message} x {no annotations, all annotations}) and longer histories (to 5 / 6) over a sub-alphabet; each history is replayed from scratch through the real Builder::new_archive_unnamed..build() into a local OCI archive in a private scratch directory, reopened with Artifact::from_oci_archive and compared with a Vec<(media type, bytes, annotations)> reference: manifest order / media types / sha256 digests (computed with sha2) / annotations; get_layer by digest; typed getter of the stored kind returns an equal message and annotations, the other three fail; unknown digest fails; per-kind descriptor sub-sequences; positional listings get_instances / get_solutions. Annotation accessors: every single field, every pair of fields and all fields at once for the four annotation types (title, 1 and 3 authors, created with sub-second precision and non-UTC offsets, licence, dataset, counts, user keys, start/end, instance and solver digests, parameters) after the archive round trip. An image with a foreign artifact type, or a plain image manifest without artifactType, must not yield a manifest; archives written without the SDK's builder (ocipkg + the published media types and annotation keys, which are literals in the harness) must be readable; the stored hex under another digest algorithm is an unknown digest.",
+        "Explicit exploration of add-operation histories: every sequence of length 0..3 (quick) / 0..4 (thorough, 70k archives) over the 16-action alphabet (4 layer kinds x {empty message whose bytes coincide across kinds so digests collide, non-trivial message} x {no annotations, all annotations}) and longer histories (to 5 / 6) over a sub-alphabet; each history is replayed from scratch through the real Builder::new_archive_unnamed..build() into a local OCI archive in a private scratch directory, reopened with Artifact::from_oci_archive and compared with a Vec<(media type, bytes, annotations)> reference: manifest order / media types / sha256 digests (computed with sha2) / annotations; get_layer by digest; typed getter of the stored kind returns an equal message and annotations, the other three fail; unknown digest fails; per-kind descriptor sub-sequences; positional listings get_instances / get_solutions. Annotation accessors: every single field, every pair of fields and all fields at once for the four annotation types (title, 1 and 3 authors incl. names and titles with leading / trailing blanks, created with sub-second precision and non-UTC offsets, licence, dataset, counts, user keys, start/end, instance and solver digests, parameters) after the archive round trip. An image with a foreign artifact type, or a plain image manifest without artifactType, must not yield a manifest; archives written without the SDK's builder (ocipkg + the published media types and annotation keys, which are literals in the harness) must be readable; the stored hex under another digest algorithm is an unknown digest.",
         "With equal digests a digest-only lookup cannot distinguish layers: typed getters are asserted against the first layer with that digest (see evidence assumptions); positional listings are asserted strictly. No registry access (local archives only).",
         "explicit-state exploration of operation histories on the real builder/reader vs a Vec reference model",
     ),
